@@ -41,14 +41,55 @@ class Ptr:
         return hash((id(self.arr), self.i))
 
 
+class OutOfBounds(AnalysisBroken):
+    """a store or load outside a local array of the interpreted function"""
+
+
+class Ref:
+    """address of a scalar local (`&x`): loads and stores go to the variable"""
+    __slots__ = ('env', 'name')
+
+    def __init__(self, env, name):
+        self.env, self.name = env, name
+
+
+_UMASK = {'uint8_t': 0xFF, 'unsigned char': 0xFF, 'uint16_t': 0xFFFF, 'unsigned short': 0xFFFF, 'uint32_t': 0xFFFFFFFF, 'unsigned int': 0xFFFFFFFF,
+          'uint64_t': 0xFFFFFFFFFFFFFFFF, 'unsigned long': 0xFFFFFFFFFFFFFFFF, 'size_t': 0xFFFFFFFFFFFFFFFF}
+
+
+_SBITS = {'int': 32, 'int32_t': 32, 'long': 64, 'int64_t': 64, 'long long': 64, 'short': 16, 'int16_t': 16, 'int8_t': 8, 'signed char': 8, 'char': 8}
+
+
+def _wrap(t, v):
+    """v as a value of the C integer type t (two's complement wrap-around); other types and non-integers unchanged"""
+    if not isinstance(v, int) or isinstance(v, bool):
+        return v
+    t = (t or '').replace('const ', '').strip()
+    m = _UMASK.get(t)
+    if m is not None:
+        return v & m
+    b = _SBITS.get(t)
+    if b is not None:
+        v &= (1 << b) - 1
+        return v - (1 << b) if v >> (b - 1) else v
+    return v
+
+
+def _mask(t, v):
+    m = _UMASK.get((t or '').replace('const ', '').strip())
+    return v & m if m is not None and isinstance(v, int) else v
+
+
 class Mini:
-    def __init__(self, db, hook=None, members=None, budget=20000, typed=None, member_store=False):
+    def __init__(self, db, hook=None, members=None, budget=20000, typed=None, member_store=False, c_ints=False):
         self.db = db
         self.hook = hook or (lambda callee, args, node: None)
         self.members = members or {}       # normalised member-expression text -> value
         self.budget = budget
         self.typed = typed or {}           # type name (no const / gdstk::) -> value of every input of that type
         self.member_store = member_store   # allow stores to member expressions (recorded in self.members)
+        self.c_ints = c_ints               # integer casts and arithmetic wrap to the width of their C type
+        self.writable = set()              # ids of the arrays declared by the interpreted code (stores allowed)
 
     def _typed(self, e):
         if not self.typed:
@@ -64,6 +105,9 @@ class Mini:
     # ---- expressions
     def ev(self, e, env):
         self.tick()
+        if e is not None and e.k in ('CStyleCastExpr', 'ImplicitCastExpr', 'CXXStaticCastExpr', 'CXXFunctionalCastExpr') and e.child('sub') is not None and self.c_ints:
+            v = self.ev(e.child('sub'), env)
+            return _wrap(e.ct or e.t, v) if (e.cast or '') in ('IntegralCast', 'NoOp', '') or 'Integral' in (e.cast or '') else v
         e = _strip_casts(e)
         if e is None:
             raise AnalysisBroken('mini-interpreter: empty expression')
@@ -105,6 +149,16 @@ class Mini:
             op = e.op
             if op == '*':
                 return self.load(self.ev(e.child('sub'), env))
+            if op == '&':
+                t = _strip_casts(e.child('sub'))
+                if t.k == 'DeclRefExpr' and t.dk in ('local', 'param'):
+                    if isinstance(env.get(t.n), Ptr):
+                        return env[t.n]
+                    return Ref(env, t.n)
+                if t.k == 'ArraySubscriptExpr':
+                    b, i = self.ev(t.child('base') or t.c[0], env), self.ev(t.child('idx') or t.c[1], env)
+                    return Ptr(b.arr, b.i + i)
+                raise AnalysisBroken('mini-interpreter: address of `%s`' % t.text()[:40])
             if op in ('++', '--', 'post++', 'post--'):
                 t = _strip_casts(e.child('sub'))
                 if t.k != 'DeclRefExpr':
@@ -158,12 +212,42 @@ class Mini:
                 raise AnalysisBroken('mini-interpreter: operator %s' % op)
             r_ = f(a, b)
             from fractions import Fraction
-            return r_ if isinstance(r_, Fraction) and r_.denominator != 1 else int(r_)
+            if isinstance(r_, Fraction) and r_.denominator != 1:
+                return r_
+            r_ = int(r_)
+            if self.c_ints and op in ('+', '-', '*', '<<', '>>', '&', '|', '^') and isinstance(a, int) and isinstance(b, int):
+                r_ = _wrap(e.ct or e.t, r_)      # the operation is carried out in its C type: `int << 35` does not reach bit 35
+            return r_
         if is_assign(e) or k == 'CompoundAssignOperator':
             t = _strip_casts(e.child('lhs'))
             if t.k == 'MemberExpr' and self.member_store and e.op == '=':
                 r = self.ev(e.child('rhs'), env)
                 self.members[' '.join(t.text().split())] = r
+                return r
+            if t.k in ('UnaryOperator', 'ArraySubscriptExpr') and (t.k == 'ArraySubscriptExpr' or t.op == '*'):
+                # store through a pointer into an array declared by the interpreted code itself
+                if t.k == 'UnaryOperator':
+                    p_ = self.ev(t.child('sub'), env)
+                else:
+                    b, i = self.ev(t.child('base') or t.c[0], env), self.ev(t.child('idx') or t.c[1], env)
+                    p_ = Ptr(b.arr, b.i + i) if isinstance(b, Ptr) else None
+                r = self.ev(e.child('rhs'), env)
+                if isinstance(p_, Ref):
+                    cur = p_.env.get(p_.name, 0)
+                elif isinstance(p_, Ptr) and id(p_.arr) in self.writable:
+                    if not (0 <= p_.i < len(p_.arr)):
+                        raise OutOfBounds('mini-interpreter: store outside the local array (index %d of %d) at %s' % (p_.i, len(p_.arr), e.loc()))
+                    cur = p_.arr[p_.i]
+                else:
+                    raise AnalysisBroken('mini-interpreter: store to `%s` (inputs are read-only)' % t.text()[:40])
+                if e.op != '=':
+                    import operator as O
+                    r = {'+=': O.add, '-=': O.sub, '*=': O.mul, '|=': O.or_, '&=': O.and_, '^=': O.xor, '<<=': O.lshift, '>>=': O.rshift}[e.op](cur, r)
+                r = _mask(t.ct or t.t, r)
+                if isinstance(p_, Ref):
+                    p_.env[p_.name] = r
+                else:
+                    p_.arr[p_.i] = r
                 return r
             if t.k != 'DeclRefExpr':
                 raise AnalysisBroken('mini-interpreter: store to `%s` (inputs are read-only)' % t.text()[:40])
@@ -194,6 +278,8 @@ class Mini:
         raise AnalysisBroken('mini-interpreter: expression %s `%s`' % (k, e.text()[:50]))
 
     def load(self, p):
+        if isinstance(p, Ref):
+            return p.env.get(p.name, 0)
         if not isinstance(p, Ptr) or not (0 <= p.i < len(p.arr)):
             raise AnalysisBroken('mini-interpreter: read outside the input array (index %s of %s)' % (getattr(p, 'i', '?'), len(getattr(p, 'arr', []))))
         return p.arr[p.i]
@@ -210,6 +296,20 @@ class Mini:
         elif k == 'DeclStmt':
             for v in s.c:
                 if v is not None and v.k == 'VarDecl':
+                    import re as _re
+                    am = _re.fullmatch(r'(?:const )?([\w ]+?)\s*\[(\d+)\]', (v.ct or v.t or '').strip())
+                    if am and int(am.group(2)) <= 4096:
+                        arr = [0] * int(am.group(2))
+                        i_ = _strip_casts(v.child('init')) if v.child('init') is not None else None
+                        if i_ is not None and i_.k == 'InitListExpr':
+                            for j_, c_ in enumerate(x for x in i_.c if x is not None):
+                                if j_ < len(arr) and c_.k != 'ImplicitValueInitExpr':
+                                    arr[j_] = _mask(am.group(1), self.ev(c_, env))
+                        elif i_ is not None:
+                            raise AnalysisBroken('mini-interpreter: array initialiser `%s`' % i_.text()[:40])
+                        self.writable.add(id(arr))
+                        env[v.n] = Ptr(arr, 0)
+                        continue
                     env[v.n] = self.ev(v.child('init'), env) if v.child('init') is not None else 0
         elif k == 'IfStmt':
             self.run(s.child('then') if self.ev(s.child('cond'), env) else s.child('else'), env)
